@@ -61,10 +61,11 @@ func (h *Sources) Save() {
 		return
 	}
 
-	// Make a copy of the cursor and ensure its position.
+	// Make a copy of the cursor and ensure its position is in the line
+	// (each keymap further adjusts the cursor once it has been restored).
 	cur := core.NewCursor(h.line)
 	cur.Set(h.cursor.Pos())
-	cur.CheckCommand()
+	cur.CheckAppend()
 
 	// And save the item.
 	line.items = append(line.items, undoItem{
